@@ -100,27 +100,24 @@ def ipv6Aton (t : Bytes) : Option Bytes :=
   else if startsWith b [58] && !startsWith b [58, 58] then none
   else
     let b := if b = [58, 58] then [48, 58, 58] else b
-    -- dot-quad ending: `(.*):(\d+\.\d+\.\d+\.\d+)$` — `.` does not match a newline, `$` also matches before one
-    -- trailing newline (which is then dropped with the rewrite)
+    -- dot-quad ending: `(.*):(\d+\.\d+\.\d+\.\d+)\Z` — `.` does not match a newline, `\Z` is the very end of the text
     let b? : Option Bytes :=
-      let b1 := if endsWith b [10] then b.dropLast else b
-      if b1.contains 10 then some b
-      else match lastIndexOf 58 b1 with
+      if b.contains 10 then some b
+      else match lastIndexOf 58 b with
       | some i =>
-        let suf := b1.drop (i + 1)
+        let suf := b.drop (i + 1)
         if looksDotQuad suf then
           match ipv4Aton suf with
-          | some [b0, b1', b2, b3] => some (b1.take i ++ [58] ++ hex2 b0 ++ hex2 b1' ++ [58] ++ hex2 b2 ++ hex2 b3)
+          | some [b0, b1, b2, b3] => some (b.take i ++ [58] ++ hex2 b0 ++ hex2 b1 ++ [58] ++ hex2 b2 ++ hex2 b3)
           | _ => none
         else some b
       | none => some b
     match b? with
     | none => none
     | some b =>
-      -- `::.*` at the start; else `.*::$` (again: no newline inside, one allowed at the very end)
+      -- `::.*` at the start; else `.*::\Z` (no newline before the final `::`)
       let b := if startsWith b [58, 58] then b.drop 1
                else if endsWith b [58, 58] && !(b.dropLast.dropLast).contains 10 then b.dropLast
-               else if endsWith b [58, 58, 10] && !(b.dropLast.dropLast.dropLast).contains 10 then b.dropLast
                else b
       let chunks := split 58 b
       let l := chunks.length
